@@ -130,7 +130,7 @@ pub fn formatter(cfg: &Cfg) -> std::rc::Rc<Formatter> {
     })
 }
 
-fn take_panic() -> PanicInfo {
+pub fn take_panic() -> PanicInfo {
     let (message, location) = LAST_PANIC.with(|p| p.borrow_mut().take()).unwrap_or_default();
     let step_limit = message.contains(verif::STEP_LIMIT_PANIC);
     PanicInfo { message, location, step_limit }
